@@ -1300,8 +1300,51 @@ func (t *c06RecTty) WindowSize() (WindowSize, error)  { return WindowSize{Width:
 		fail("Resume() after Fini() returned %v and left %d more goroutine(s) running: a finished screen came back to life", rerr, runtime.NumGoroutine()-before)
 		return
 	}`) + strings.SplitN(inert, "\ntype c06RecTty struct", 2)[0][:0] + "\ntype c06RecTty struct" + strings.SplitN(inert, "\ntype c06RecTty struct", 2)[1]
+	sizes := replayTest("tcell", []string{"time", modPath + "/terminfo", "_ " + modPath + "/terminfo/base"}, `
+	ti, err := terminfo.LookupTerminfo("xterm")
+	if err != nil { fail("no xterm description: %v", err); return }
+	tty := &c06SizeTty{w: 80, h: 24, wake: make(chan struct{}, 16)}
+	s, err := NewTerminfoScreenFromTtyTerminfo(tty, ti)
+	if err != nil { fail("new screen: %v", err); return }
+	if err := s.Init(); err != nil { fail("init: %v", err); return }
+	ts := s.(*baseScreen).screenImpl.(*tScreen)
+	if err := s.Suspend(); err != nil { fail("suspend: %v", err); return }
+	tty.w, tty.h = 40, 10 // the window shrinks while the screen is suspended (nobody is told: the callback is unregistered)
+	if err := s.Resume(); err != nil { fail("resume: %v", err); return }
+	ts.Lock()
+	cw, ch := ts.cells.Size()
+	w, h := ts.w, ts.h
+	ts.Unlock()
+	if w != cw || h != ch {
+		fail("after Suspend, a window change to 40x10 and Resume the draw loops run over %dx%d but the cell buffer is %dx%d: once the window is back at %dx%d, resize() sees no change, and Show never returns (drawCell reports width 0 outside the buffer) with the screen lock held", w, h, cw, ch, w, h)
+		return
+	}
+	tty.w, tty.h = 80, 24
+	done := make(chan struct{})
+	go func() { s.Sync(); s.Fini(); close(done) }()
+	select {
+	case <-done:
+	case <-time.After(3 * time.Second):
+		fail("Sync/Fini did not return within 3s after the window went back to 80x24")
+	}`) + `
+type c06SizeTty struct {
+	w, h int
+	wake chan struct{}
+}
+
+func (t *c06SizeTty) Read(p []byte) (int, error)      { <-t.wake; return 0, nil }
+func (t *c06SizeTty) Write(p []byte) (int, error)     { return len(p), nil }
+func (t *c06SizeTty) Close() error                    { return nil }
+func (t *c06SizeTty) Start() error                    { return nil }
+func (t *c06SizeTty) Stop() error                     { return nil }
+func (t *c06SizeTty) Drain() error                    { select { case t.wake <- struct{}{}: default: }; return nil }
+func (t *c06SizeTty) NotifyResize(cb func())          {}
+func (t *c06SizeTty) WindowSize() (WindowSize, error) { return WindowSize{Width: t.w, Height: t.h}, nil }
+`
 	for _, g := range run.Groups {
 		switch {
+		case g.Name == "tcell.(*tScreen).engage/ensures#size-agrees":
+			g.ReplayGo = sizes
 		case g.Name == "tcell.(*tScreen).engage/ensures#finished-stays-down":
 			g.ReplayGo = again
 		case g.Name == "tcell.(*tScreen).finish/ensures#finished" || strings.HasPrefix(g.Name, "tcell.(*tScreen).Show/ensures#inert") || strings.HasPrefix(g.Name, "tcell.(*tScreen).Sync/ensures#inert"):
